@@ -163,7 +163,7 @@ content_case = st.fixed_dictionaries({
     "rows": st.integers(1, 300), "cols": st.integers(1, 40),
     "n": st.one_of(st.integers(1, 8), st.integers(1, 64)),
     "ndim": st.sampled_from([2, 2, 3, 4]),
-    "planes": st.integers(1, 3), "cube_index": st.integers(0, 2),
+    "planes": st.integers(1, 3), "cube_index": st.integers(0, 2), "lead4": st.sampled_from([1, 1, 2, 3]),
     "bscale": st.sampled_from([None, None, 1.0, 0.5, 3.0]),
     # FITS scaling is physical = BZERO + BSCALE * stored; integer BITPIX is the usual reason for it
     "bzero": st.sampled_from([None, None, None, 0.0, 2.0, -100.0]),
@@ -193,6 +193,10 @@ def build_content(c, d):
         arr = cube[0]
     elif c["ndim"] == 3:
         arr = cube
+    elif c.get("lead4", 1) > 1:
+        # 4-D with a non-degenerate leading axis: the documented plane is [0, cube_index]; the other leading planes hold
+        # unrelated data
+        arr = np.stack([cube] + [(cube[::-1] * 3 + 1).astype(c["dtype"]) for _ in range(c["lead4"] - 1)])
     else:
         arr = cube[None]
     ext = c.get("ext", 0)
